@@ -6,7 +6,7 @@ H3 == {"h1", "h2", "h3"}
 M(m, w) == <<m, w>>
 \* trigger / await points used by the catalogue
 TrigPts == {M("before_START_ACTIVITY", -1), M("before_START_ACTIVITY", 0), M("before_START_ACTIVITY", 2),
-            M("leave_CONFIGURED", 0), M("enter_RUNNING", 0), M("after_START_ACTIVITY", 0), M("before_STOP_ACTIVITY", 0),
+            M("leave_CONFIGURED", 0), M("enter_RUNNING", -1), M("enter_RUNNING", 0), M("after_START_ACTIVITY", 0), M("before_STOP_ACTIVITY", 0),
             M("leave_RUNNING", 0), M("after_STOP_ACTIVITY", -1)}
 AwaitAfter(t) ==  \* await points at or after the trigger: same point, later weight, later moment, later transition, never
   {t} \cup (IF t[1] = "before_START_ACTIVITY" THEN {M("before_START_ACTIVITY", 5)} ELSE {})
